@@ -124,7 +124,10 @@ def run(ctx: Ctx):
     gv = GuardView(cfg)
     pop = [n for n in own_nodes(p.node) if isinstance(n, ast.Assign) and isinstance(n.value, ast.Call) and ast.unparse(n.value.func) == "heappop"]
     ctx.require(len(pop) == 1 and isinstance(pop[0].targets[0], ast.Tuple), "prim heap pop not found")
-    w, _, u, v = [ast.unparse(e) for e in pop[0].targets[0].elts]
+    elts = [ast.unparse(e) for e in pop[0].targets[0].elts]
+    ctx.ob("C13-O2", "R21 search discipline", p, "heap entries carry a tie-breaker between the weight and the node labels: (weight, counter, from, to)", len(elts) == 4, f"entries are {tuple(elts)}: on equal weights heapq compares the node labels themselves, which raises TypeError for labels without a common order (the property allows any hashable label)", node=pop[0])
+    ctx.require(len(elts) == 4, "prim heap entries are not (weight, tiebreak, from, to): the remaining prim obligations cannot be read off")
+    w, _, u, v = elts
     acc = [n for n in own_nodes(p.node) if isinstance(n, ast.AugAssign) and ast.unparse(n.target) == "total_weight"]
     app = [n for n in own_nodes(p.node) if isinstance(n, ast.Call) and ast.unparse(n.func) == "mst_edges.append"]
     add = [n for n in own_nodes(p.node) if isinstance(n, ast.Call) and ast.unparse(n.func) == "in_mst.add"]
@@ -245,6 +248,12 @@ def _v_kruskal_final_return_deleted(tree):
     g.body = g.body[:-1] + [ast.Pass()]
 
 
+def _v_prim_no_tiebreak(tree):
+    g = M.find_func(tree, "prim")
+    M.replace_expr(g, lambda e: isinstance(e, ast.Tuple) and len(e.elts) == 4 and M.src_is(e.elts[1], "counter"), lambda e: ast.Tuple(elts=[e.elts[0], e.elts[2], e.elts[3]], ctx=ast.Load()), count=2)
+    M.replace_expr(g, lambda e: isinstance(e, ast.Tuple) and M.src_is(e, "(weight, _, u, v)"), M.expr("(weight, u, v)"))
+
+
 def _v_accept_all(tree):
     g = M.find_func(tree, "kruskal")
     M.replace_stmt(g, lambda s: isinstance(s, ast.If) and M.src_is(s.test, "uf.union(u, v)"), lambda s: [ast.Expr(value=M.expr("uf.union(u, v)"))] + s.body)
@@ -294,5 +303,6 @@ VARIANTS = [
     M.Variant("twin: kruskal scan moved into a closure over the complete sorted list", MS, _t_scan_closure, None),
     M.Variant("kruskal's tree list is never initialised", MS, _v_kruskal_init_deleted, "C13-G5"),
     M.Variant("kruskal's final return is missing", MS, _v_kruskal_final_return_deleted, "C13-G6"),
+    M.Variant("prim drops the tie-breaking counter from its heap entries (seed C13-H)", MS, _v_prim_no_tiebreak, "C13-O2"),
     M.Variant("twin: reformat", MS, _t_reformat, None),
 ]
